@@ -7,7 +7,9 @@ PROP = "C09"
 RUNNER = ("RunTransform", "run_C09")
 COQ_TARGETS = ["theories/RunTransform.vo"]
 AUTHORITY = ("C09_* (coq/props/C09.v): the model's parametric objective denotes f + sum_c p_c * g_c^2 (uniform: f + p * sum g_c^2); "
-             "the runner recomputes the expected objective for the SDK's own (checked-fresh) parameter ids")
+             "the runner recomputes the expected objective for the SDK's own (checked-fresh) parameter ids; C09_penalty_eval / "
+             "C09_uniform_penalty_eval: with the weights fixed, EVALUATION at x gives f(x) + sum_k w_k g_k(x)^2, no active constraint, "
+             "the former constraints reported in order, feasible_relaxed always true")
 RULE = ("valid instances (0-3 active, 0-2 previously removed constraints, constant / absent / unset constraint functions, degree <= 2, "
         "non-contiguous ids, zero constraints, either sense, dependencies) through penalty_method and uniform_penalty_method; "
         "compared: no active constraint, every input constraint kept (id, function, equality, metadata) in order, fresh distinct "
